@@ -9,10 +9,10 @@ use std::collections::HashMap;
 pub fn enum_audits(_s: u64) -> Vec<String> {
     ["chars :: axiom_not_ws axiom_blank_is_ws axiom_space_is_ws axiom_ws_is_not_a_symbol char::is_ascii_digit",
      "trim :: str::trim is_trim_of minimal axiom_trim_idempotent",
-     "cmp :: String::cmp axiom_str_cmp_laws String==str axiom_str_ext",
+     "cmp :: String::cmp axiom_str_cmp_laws String==str axiom_str_ext axiom_string_eq",
      "strops :: str_is_empty String::len str_skip_first_byte str_starts_with_string str_contains_char str_ends_with_char Chars::last str_to_chars chars_to_string",
      "hashmap :: axiom_kb_lookup axiom_kb_one_value",
-     "floats :: i64_to_f64 axiom_f64_arith_is_a_function",
+     "floats :: i64_to_f64 axiom_f64_arith_is_a_function axiom_f64_eq_sym axiom_f64_cmp_converse",
      "slices :: to_vec axiom_cloned_char",
     ].iter().map(|s| s.to_string()).collect()
 }
@@ -85,6 +85,8 @@ pub fn check_audit(case: &str) -> Result<(), String> {
                     let lex = a.chars().collect::<Vec<char>>().cmp(&b.chars().collect::<Vec<char>>());
                     if o != lex { return Err(format!("cmp({:?}, {:?}) = {:?}, code-point order gives {:?}", a, b, o, lex)); }
                     if (*a == *b.as_str()) != a.chars().eq(b.chars()) { return Err(format!("String == str on {:?}, {:?}", a, b)); }
+                    // `==` on two &String (blanket impl for references; spec/std_eq.rs axiom_string_eq)
+                    { let (ra, rb): (&String, &String) = (a, b); if (ra == rb) != a.chars().eq(b.chars()) || ra.eq(rb) != (ra == rb) { return Err(format!("&String == &String on {:?}, {:?}", a, b)); } }
                 }
             }
             Ok(())
@@ -143,6 +145,11 @@ pub fn check_audit(case: &str) -> Result<(), String> {
             for a in xs { for b in xs {
                 let f = |x: f64, y: f64| { let (x, y) = (std::hint::black_box(x), std::hint::black_box(y)); [(x + y).to_bits(), (x - y).to_bits(), (x * y).to_bits(), (x / y).to_bits()] };
                 if f(a, b) != f(a, b) { return Err(format!("arithmetic on {:?}, {:?} is not a function", a, b)); }
+                // the partial comparison of (b, a) is the converse of that of (a, b) (spec/std_eq.rs axiom_f64_cmp_converse)
+                { let (x, y) = (std::hint::black_box(a), std::hint::black_box(b));
+                  if x.partial_cmp(&y) != y.partial_cmp(&x).map(|o| o.reverse()) || (x <= y) != (y >= x) || (x < y) != (y > x) { return Err(format!("comparison of {:?}, {:?} is not the converse of the comparison the other way round", a, b)); } }
+                // IEEE equality is symmetric (spec/std_eq.rs axiom_f64_eq_sym)
+                if (std::hint::black_box(a) == std::hint::black_box(b)) != (std::hint::black_box(b) == std::hint::black_box(a)) { return Err(format!("{:?} == {:?} is not symmetric", a, b)); }
             } }
             for i in [0i64, 1, -1, i64::MAX, i64::MIN, (1 << 53) + 1, -(1 << 53) - 1, 123456789012345678] {
                 let g = |x: i64| (std::hint::black_box(x) as f64).to_bits();
